@@ -134,6 +134,9 @@ def norm_value(v):
 
 def observed_table(eflr):
     rows = []
+    labels = [a.label for a in eflr.template.attrs]
+    unique = [i for i, lb in enumerate(labels) if labels.count(lb) == 1]
+    names = [obj.name for obj in eflr.objects]
     for obj in eflr.objects:
         cells = []
         for a in obj.attrs:
@@ -141,8 +144,29 @@ def observed_table(eflr):
                 cells.append('absent')
             else:
                 cells.append((a.count, a.rep_code, a.units, tuple(norm_value(v) for v in (a.value or []))))
+        # the lesser accessors agree with the positional ones: a cell looked up by its column label, a row by its name
+        for i in unique:
+            if i < len(obj.attrs):
+                try:
+                    same = obj[labels[i]] is obj.attrs[i]
+                except Exception as err:  # noqa
+                    same = False
+                if not same:
+                    cells[i] = ('lookup by label %r gives another cell than position %d' % (labels[i], i), cells[i])
+        if len(obj) != len(obj.attrs):
+            cells.append('len(object) = %r' % len(obj))
+        if names.count(obj.name) == 1:
+            try:
+                same = eflr[obj.name] is obj
+            except Exception as err:  # noqa
+                same = False
+            if not same:
+                cells.append('lookup of the row by its name gives another row')
         rows.append(((obj.name.O, obj.name.C, obj.name.I), cells))
-    return (eflr.set.type, eflr.set.name, [a.label for a in eflr.template.attrs], rows)
+    for i in unique:
+        if eflr.template[labels[i]] is not eflr.template.attrs[i]:
+            labels[i] = ('template lookup by label gives another column', labels[i])
+    return (eflr.set.type, eflr.set.name, labels, rows)
 
 
 FILE_HEADER = {'type': b'FILE-HEADER', 'name': b'0', 'template': [
